@@ -71,6 +71,7 @@ type FnCtx struct {
 	curState  *State
 	inputs    []InputVar // parameters, for replay
 	assumptions map[string]bool
+	splitTerm Val
 }
 
 type siteKey struct {
